@@ -1,0 +1,9 @@
+//go:build verif
+
+package msl
+
+import "github.com/gogpu/naga/msl/internal/codegen"
+
+// Verification hook (build tag `verif`, add-only): re-export of
+// codegen.VerifNamerRun for the external verification harness (property C16).
+func VerifNamerRun(ops []string) []string { return codegen.VerifNamerRun(ops) }
